@@ -102,6 +102,7 @@ v('c12-lark-edited', 'C12', 'C12/artifact-sync', 'raise', ('data/syntax/py_gram.
 v('c12-rules-edited', 'C12', 'C12/artifact-sync', 'params', ('data/syntax/py_rules.py', "							('symbol', 'param'),\n							('string', '\",\"')", "							('symbol', 'param'),\n							('string', '\";\"')"))
 v('c12-gram-rules-edited', 'C12', 'C12/artifact-sync', 'expr_opt', ('data/syntax/gram_rules.py', "					('string', '\"[\"'),\n					('symbol', 'expr'),", "					('string', '\"[\"'),\n					('symbol', 'terms'),"))
 
+v('c07-f44-reverted', 'C07', 'C07/regexp-terminals-linear', 'string', ('data/syntax/py_gram.lark', "string := /\\'(?:[^\\'\\\\]|\\\\\\')*\\'|\"(?:[^\"\\\\]|\\\\\")*\"/", "string := /\\'([^\\'\\\\]*(\\\\\\')?)*\\'|\"([^\"\\\\]*(\\\\\")?)*\"/"))
 # ---- C13 ----
 v('c13-symbol-reordered', 'C13', 'C13/symbol-table-alignment', 'symbol', ('rogw/tranp/implements/syntax/tranp/token.py', "		self.symbol = '@#$.,:;(){}[]`=-+*/%&|^~!?<>'", "		self.symbol = '@#$.,:;(){}[]`=+-*/%&|^~!?<>'"))
 v('c13-combined-reordered', 'C13', 'C13/symbol-table-alignment', 'combined', ('rogw/tranp/implements/syntax/tranp/token.py', "			'<<', '>>',\n", "			'>>', '<<',\n"))
@@ -152,6 +153,11 @@ v('c17-div-truncated', 'C17', 'C17/routing-partition', 'float-arm-test', ('rogw/
 v('c17-tilde-allowed', 'C17', 'C17/grammar-exhaustive', 'factor:~', ('rogw/tranp/implements/transpiler/evaluator.py', "	BitwiseOps: ClassVar = ['|', '^', '&', '<<', '>>']", "	BitwiseOps: ClassVar = ['|', '^', '&', '<<', '>>', '~']"))
 v('c17-cast-swapped', 'C17', 'C17/literal-decoding', 'cast:int', ('rogw/tranp/implements/transpiler/evaluator.py', "		if org_calls == 'int':\n			if isinstance(arguments[0], str):\n				return int(arguments[0][1:-1])\n			else:\n				return int(arguments[0])", "		if org_calls == 'int':\n			if isinstance(arguments[0], str):\n				return int(arguments[0][1:-1])\n			else:\n				return round(float(arguments[0]))"))
 
+# ---- C18 ----
+v('c18-f43-reverted-skip', 'C18', 'C18/quoted-text-is-opaque', '_skip_other_block', ('rogw/tranp/view/helper/block.py', "			if text[index] in other_tokens and (not in_quote or text[index] == other_closes[-1]):", "			if text[index] in other_tokens:"))
+v('c18-f43-reverted-last-block', 'C18', 'C18/quoted-text-is-opaque', 'break_last_block', ('rogw/tranp/view/helper/block.py', "			if text[index] in '\"\\'':\n				# 文字列内の括弧はブロックとして数えない\n				index = cls._skip_other_block(text, '\"\"\\'\\'', index)\n				continue\n\n", ""))
+v('c18-quotes-dropped-from-table', 'C18', 'C18/pair-table', '_all_pair', ('rogw/tranp/view/helper/block.py', "	_all_pair = ['[]', '()', '{}', '<>', '\"\"', \"''\"]", "	_all_pair = ['[]', '()', '{}', '<>']"))
+v('c18-separator-skips-brackets-only', 'C18', 'C18/quoted-text-is-opaque', 'break_separator', ('rogw/tranp/view/helper/block.py', "		open_tokens = ''.join([pair[0] for pair in cls._all_pair])\n		other_tokens = ''.join(cls._all_pair)\n		blocks: list[str] = []", "		open_tokens = '[({<'\n		other_tokens = ''.join(cls._all_pair)\n		blocks: list[str] = []"))
 # ---- C19 ----
 v('c19-clone-alias', 'C19', 'C19/clone-owns-storage', '_clone', ('rogw/tranp/lang/di.py', '		di.__injectors = self.__injectors.copy()', '		di.__injectors = self.__injectors'))
 v('c19-combine-left-wins', 'C19', 'C19/clone-owns-storage', 'right-wins', ('rogw/tranp/lang/di.py', '		di.__instances = {**di.__instances, **other.__instances}', '		di.__instances = {**other.__instances, **di.__instances}'))
